@@ -139,6 +139,26 @@ pub fn run_pte(out: &mut Out, seed: u64, n: u64) {
                 .n("empty", t.is_empty() as i64),
         );
     }
+    // iterator adaptors over the full table: nth consumes, skip / step_by visit the right slots
+    {
+        let vals: Vec<u64> = (0..512).map(|i| raw_of(&t[i])).collect();
+        let none = u64::MAX;
+        for &(k, st) in &[(0usize, 2usize), (1, 3), (7, 7), (255, 64), (256, 100), (510, 511), (511, 512), (100, 1)] {
+            let (a, b) = {
+                let mut it = t.iter();
+                let a = it.nth(k).map(raw_of).unwrap_or(none);
+                let b = it.next().map(raw_of).unwrap_or(none);
+                (a, b)
+            };
+            let c = t.iter().skip(k).next().map(raw_of).unwrap_or(none);
+            let d: Vec<u64> = t.iter().step_by(st).take(5).map(raw_of).collect();
+            let n_after: usize = { let mut it = t.iter(); let _ = it.nth(k); it.count() };
+            let mut im = t.iter_mut();
+            let am = im.nth(k).map(|e| raw_of(e)).unwrap_or(none);
+            let bm = im.next().map(|e| raw_of(e)).unwrap_or(none);
+            out.emit(Ev::new("tbl_iter").n("k", k as i64).n("step", st as i64).words("vals", &vals).words("got", &[a, b, c, am, bm]).words("stepped", &d).n("rest", n_after as i64));
+        }
+    }
     t.zero();
     out.emit(Ev::new("tbl_zero").n("empty", t.is_empty() as i64).n("nonzero_bytes", nonzero_bytes(&t) as i64));
     // is_empty notices a single non-zero slot anywhere; zero() clears every slot
